@@ -112,6 +112,28 @@ Definition case_meets_spec (c : c07case) : bool :=
           || in_file lines f (r, c') (er2, ec2) got
       | _, _ => true
       end
+  | CRFR lines f ref got =>
+      match ref, last_opt ref with
+      | x :: _, Some y =>
+          match arg_quad x, arg_quad y with
+          | Some (r, c', er, ec), Some (r2, c2, er2, ec2) =>
+              negb (wf_quadb lines (r, c', er, ec) && wf_quadb lines (r2, c2, er2, ec2) && pos_leb (r, c') (er2, ec2))
+              || in_file lines f (r, c') (er2, ec2) got
+          | _, _ => true
+          end
+      | _, _ => true
+      end
+  | CInf lines f expr got =>
+      match nth_error expr 1, last_opt expr with
+      | Some (LStr s1), Some (LStr s2) =>
+          match parse_loc s1, parse_loc s2 with
+          | Some (r, c', _, _), Some (_, _, er2, ec2) =>
+              negb ((1 <=? r) && (r <=? Z.of_nat (length lines)) && (1 <=? c') && pos_leb (r, c') (er2, ec2))
+              || in_file lines f (r, c') (er2, ec2) got
+          | _, _ => true
+          end
+      | _, _ => true
+      end
   | CLsp l got =>
       negb (match r_end l with Some e => (1 <=? r_row l) && pos_leb (r_row l, r_col l) e | None => true end) ||
       let '((sl, sc), (el, ec)) := got in
@@ -129,6 +151,26 @@ Definition case_in_domain (c : c07case) : bool :=
       | _, _ => false
       end
   | CLsp l got => match r_end l with Some e => (1 <=? r_row l) && pos_leb (r_row l, r_col l) e | None => true end
+  | CRFR lines f ref got =>
+      match ref, last_opt ref with
+      | x :: _, Some y =>
+          match arg_quad x, arg_quad y with
+          | Some (r, c', er, ec), Some (r2, c2, er2, ec2) =>
+              wf_quadb lines (r, c', er, ec) && wf_quadb lines (r2, c2, er2, ec2) && pos_leb (r, c') (er2, ec2)
+          | _, _ => false
+          end
+      | _, _ => false
+      end
+  | CInf lines f expr got =>
+      match nth_error expr 1, last_opt expr with
+      | Some (LStr s1), Some (LStr s2) =>
+          match parse_loc s1, parse_loc s2 with
+          | Some (r, c', _, _), Some (_, _, er2, ec2) =>
+              (1 <=? r) && (r <=? Z.of_nat (length lines)) && (1 <=? c') && pos_leb (r, c') (er2, ec2)
+          | _, _ => false
+          end
+      | _, _ => false
+      end
   | _ => false
   end.
 
